@@ -488,14 +488,20 @@ thread_local! {
     pub static TRANSIENT: Cell<usize> = Cell::new(0);
     /// use deserialize_string / deserialize_byte_buf instead of deserialize_str / deserialize_bytes
     pub static VIA_OWNED: Cell<bool> = Cell::new(false);
+    /// every size_hint a sequence / map access reported (-1 = None), in visiting order
+    pub static HINTS: RefCell<Vec<(u8, i64)>> = RefCell::new(Vec::new());
     /// shape used by `DynVal`'s Deserialize impl
     pub static CUR_SHAPE: RefCell<Option<Shape>> = RefCell::new(None);
 }
 pub fn reset_leaves() {
     LEAVES.with(|l| l.borrow_mut().clear());
+    HINTS.with(|l| l.borrow_mut().clear());
     TRANSIENT.with(|t| t.set(0));
 }
 /// offsets of recorded leaves relative to `base` (usize::MAX marks "outside [base, base+len]")
+pub fn hints_json() -> J {
+    HINTS.with(|l| J::Array(l.borrow().iter().map(|(k, h)| json!([k, h])).collect()))
+}
 pub fn leaves_json(base: *const u8, len: usize) -> J {
     LEAVES.with(|l| {
         J::Array(
@@ -619,7 +625,10 @@ impl<'de, 'a> Visitor<'de> for V<'a> {
     }
     fn visit_seq<A: SeqAccess<'de>>(self, mut a: A) -> Result<Val, A::Error> {
         if let Shape::Seq(t) = self.0 {
-            let mut out = Vec::new(); // deliberately ignores size_hint
+            // like std's collection visitors the hint is consulted (and recorded); it is not trusted for allocation
+            let h = a.size_hint();
+            HINTS.with(|l| l.borrow_mut().push((0, h.map(|x| x.min(1 << 40) as i64).unwrap_or(-1))));
+            let mut out = Vec::new();
             while let Some(v) = a.next_element_seed(Seed(t))? {
                 out.push(v);
             }
@@ -630,6 +639,8 @@ impl<'de, 'a> Visitor<'de> for V<'a> {
     }
     fn visit_map<A: MapAccess<'de>>(self, mut a: A) -> Result<Val, A::Error> {
         if let Shape::Map(kt, vt) = self.0 {
+            let h = a.size_hint();
+            HINTS.with(|l| l.borrow_mut().push((1, h.map(|x| x.min(1 << 40) as i64).unwrap_or(-1))));
             let mut out = Vec::new();
             while let Some(k) = a.next_key_seed(Seed(kt))? {
                 let v = a.next_value_seed(Seed(vt))?;
